@@ -1,7 +1,14 @@
 /-
-  Spec.Message: the L2TPv2 message layout of RFC 2661 §3.1 with the crate's flag-bit numbering
-  (T = bit 8, L = 9, S = 12, O = 14, P = 15, version = bits 4..7, reserved = 0,1,2,3,10,11,13 of the
-  big-endian flag word), read by position.  `decode` answers `some (message, octets consumed)` or `none`.
+  Spec.Message: the L2TPv2 message layout of RFC 2661 §3.1 as this crate lays it out on the wire, read by position
+  and by mask from the octets themselves.  Shares nothing with the model (no import of `Model/*` beyond the value
+  types that come with `Spec.Avp`).
+
+  Flag octets as they arrive (the crate numbers bits from the least significant end of each octet):
+
+      octet 0:  P O r S r r L T        T = 0x01  L = 0x02  S = 0x10  O = 0x40  P = 0x80   reserved = 0x2C
+      octet 1:  v v v v r r r r        version = high nibble                             reserved = 0x0F
+
+  `decode` answers `some (message, octets consumed)` or `none`.
 
   Decisions of this specification where the pinned code had no defined behaviour (DESIGN.md §4/C05):
   a control Length below 12 or beyond the input is rejected; a data Length smaller than the header it
@@ -10,32 +17,43 @@
   after the last AVP are ignored.
 -/
 import Rl2tp.Spec.Avp
-import Rl2tp.Model.Message
 namespace Rl2tp.Spec
+
+/-! ### the two flag octets, by mask -/
+
+def bitT (x : UInt8) : Bool := x &&& 0x01 != 0
+def bitL (x : UInt8) : Bool := x &&& 0x02 != 0
+def bitS (x : UInt8) : Bool := x &&& 0x10 != 0
+def bitO (x : UInt8) : Bool := x &&& 0x40 != 0
+def bitP (x : UInt8) : Bool := x &&& 0x80 != 0
+/-- the version nibble -/
+def ver (y : UInt8) : UInt8 := y >>> 4
+/-- no reserved bit is set in either flag octet -/
+def reservedClear (x y : UInt8) : Bool := x &&& 0x2C == 0 && y &&& 0x0F == 0
 
 /-- octets of the fixed data-message fields after the flag word: ids, and Length / Ns,Nr / Offset Size
     when their bit is set -/
-def dataNeed (w : UInt16) : Nat :=
-  4 + (if hasLength w then 2 else 0) + (if hasNsNr w then 4 else 0) + (if hasOffset w then 2 else 0)
+def headerSize (x : UInt8) : Nat :=
+  4 + (if bitL x then 2 else 0) + (if bitS x then 4 else 0) + (if bitO x then 2 else 0)
 
-/-- a data message; `s` = the octets after the flag word, the count returned is relative to `s` -/
-def decodeData (w : UInt16) (s : Bytes) : Option (Msg × Nat) :=
-  let need := dataNeed w
+/-- a data message with first flag octet `x`; `s` = the octets after the flag word, the count returned is relative to `s` -/
+def dataMessage (x : UInt8) (s : Bytes) : Option (Msg × Nat) :=
+  let need := headerSize x
   if s.length < need then none else
-  let idPos := if hasLength w then 2 else 0
-  let pad := if hasOffset w then (u16At s (need - 2)).toNat else 0
+  let idPos := if bitL x then 2 else 0
+  let pad := if bitO x then (u16At s (need - 2)).toNat else 0
   if s.length - need < pad then none else
   let start := need + pad                        -- where the payload begins
-  let nsnr := if hasNsNr w then some (u16At s (idPos + 4), u16At s (idPos + 6)) else none
-  if hasLength w then
+  let nsnr := if bitS x then some (u16At s (idPos + 4), u16At s (idPos + 6)) else none
+  if bitL x then
     let l := (u16At s 0).toNat                   -- counts from the first flag octet
     if l < 2 + start ∨ l - (2 + start) > s.length - start ∨ l = 2 + start then none
-    else some (.data { prio := isPrioritized w, length := some (u16At s 0), tunnelId := u16At s idPos,
+    else some (.data { prio := bitP x, length := some (u16At s 0), tunnelId := u16At s idPos,
                        sessionId := u16At s (idPos + 2), nsnr := nsnr, offset := none,
                        data := (s.drop start).take (l - (2 + start)) }, l - 2)
   else
     if s.length = start then none
-    else some (.data { prio := isPrioritized w, length := none, tunnelId := u16At s idPos,
+    else some (.data { prio := bitP x, length := none, tunnelId := u16At s idPos,
                        sessionId := u16At s (idPos + 2), nsnr := nsnr, offset := none,
                        data := s.drop start }, s.length)
 
@@ -47,10 +65,10 @@ def acceptAvps (rs : List (Option AVP)) : Option (List AVP) :=
   | some (.messageType _) :: _ => some (rs.filterMap id)
   | _ => none
 
-/-- a control message; `s` = the octets after the flag word -/
-def decodeControl (w : UInt16) (o : Opts) (s : Bytes) : Option (Msg × Nat) :=
-  if o.unused ∧ (isPrioritized w ∨ hasOffset w) then none else
-  if ¬ hasLength w ∨ ¬ hasNsNr w then none else
+/-- a control message with first flag octet `x`; `s` = the octets after the flag word -/
+def controlMessage (x : UInt8) (o : Opts) (s : Bytes) : Option (Msg × Nat) :=
+  if o.unused ∧ (bitP x ∨ bitO x) then none else
+  if ¬ bitL x ∨ ¬ bitS x then none else
   if s.length < 10 then none else
   let l := (u16At s 0).toNat
   if l < 12 ∨ l > s.length + 2 then none else
@@ -64,9 +82,10 @@ def decodeControl (w : UInt16) (o : Opts) (s : Bytes) : Option (Msg × Nat) :=
 /-- `some (message, octets consumed)` iff the input starts with a valid message under the options -/
 def decode (o : Opts) (b : Bytes) : Option (Msg × Nat) :=
   if b.length < 2 then none else
-  let w := u16At b 0
-  if o.version ∧ version w ≠ 2 then none else
-  if o.reserved ∧ ¬ reservedOk w then none else
-  (if isControl w then decodeControl w o (b.drop 2) else decodeData w (b.drop 2)).map fun p => (p.1, p.2 + 2)
+  let x := u8At b 0
+  let y := u8At b 1
+  if o.version ∧ ver y ≠ 2 then none else
+  if o.reserved ∧ ¬ reservedClear x y then none else
+  (if bitT x then controlMessage x o (b.drop 2) else dataMessage x (b.drop 2)).map fun p => (p.1, p.2 + 2)
 
 end Rl2tp.Spec
